@@ -226,7 +226,7 @@ class Interp:
         """Run a real port call under the fake sleep, which plays `script` on the REAL devices, one action per tick.
         Returns (outcome, number of sleeps)."""
         w = self.w
-        fake = FakeSleep(budget=40)
+        fake = FakeSleep(budget=40 + len(script))
         pending = deque(script)
 
         def tick():
@@ -858,6 +858,17 @@ def main(ctx):
     ctx.check({'kind': 'volume', 'port': 'device', 'n': 70000, 'how': 'poll'}, sample=False)
     for case in C18.brokenpipe_cases():
         ctx.check(case, classes=('socket-port-broken-pipe-in-send',), sample=False)
+    # a long silence before the message: a blocking receive returns at the very tick the message is deliverable,
+    # however long it has been waiting (empty arrivals are ticks on which nothing happens)
+    for kind in ('device', 'device-direct', 'ioport', 'multi'):
+        for delay in (1022, 1023, 1024, 1025, 1500, 3000):
+            for tail in ([['receive']], [['iterate']]):
+                script = [['arrive', 0, []]] * delay + [['arrive', 0, msg_bytes(1)]] + ([['eof']] if tail == [['iterate']] and
+                                                                                        kind == 'device' else [])
+                if tail == [['iterate']] and kind != 'device':
+                    continue
+                ctx.check({'kind': kind, 'autoreset': False, 'ops': [['script', script]] + tail + [['close']]},
+                          classes=('long-wait',), sample=False)
     ctx.pmap('enum_failing_reset', [0])
     ctx.pmap('enum_selfclose', [False, True])
     n = 500 if ctx.tier == 'quick' else 6000
